@@ -221,6 +221,58 @@ def eval_maf(order, contigs, config, cap, specs, canon, route=None, tmp=None):
     return where, texts, fails, keyseq
 
 
+def eval_maf_reused(order, contigs, config, cap, specs, touch):
+    """ONE record object added several times, its location / barcodes changed in place between the adds (a caller that
+    re-uses a template record).  Every add hands over the record as it is then: the output must be those states, sorted."""
+    from maflib.sorter import MafSorter
+    where = {"order": order, "contigs": contigs, "codec": config, "capacity": cap, "specs": [list(sp) for sp in specs], "reused": True, "touch": touch,
+             "kind": "reused-record"}
+    fails = []
+    try:
+        sch = impl.scheme_by_annotation("gdc-1.0.0") if config == "scheme" else None
+        kw = {"contigs": list(contigs)} if contigs else {}
+        sorter = MafSorter(order, scheme=sch, max_objects_in_ram=cap, **kw) if sch is not None else MafSorter(order, max_objects_in_ram=cap, **kw)
+        rec = make_maf_record(config, specs[0])
+        snaps = []
+        for sp in specs:
+            text = SC.retarget(rec, make_maf_record(config, sp))
+            if touch:
+                _ = (rec.chromosome, rec.start, rec.end)      # the caller (or an order checker) looks at the location
+            snaps.append(text)
+            sorter += rec
+        first = [str(r) for r in sorter]
+        locs = [SC.loc_json(r) for r in sorter]
+        sorter.close()
+    except Exception as e:  # noqa
+        return where, [dict(where, what="MAF sorting of a re-used record failed with %s" % exc_name(e))]
+    if sorted(first) != sorted(snaps):
+        fails.append(dict(where, what="a record object re-used for %d adds (changed in place between them): the output is not the %d states that were added" % (len(specs), len(specs)),
+                          got=[t.split("\t")[:8] for t in first][:6]))
+    else:
+        bad = [i for i in range(len(locs) - 1) if expected_cmp(locs[i], locs[i + 1], order, contigs or []) > 0]
+        if bad:
+            fails.append(dict(where, what="a record object re-used for several adds: the output is not in non-decreasing key order", at=bad[0], keys=locs[bad[0]:bad[0] + 2]))
+    return where, fails
+
+
+def maf_reused_cases(ctx, out):
+    rng = ctx.rng("maf-reused")
+    for _ in range(ctx.scale(60, 500)):
+        order = rng.choice(["Coordinate", "BarcodesAndCoordinate"])
+        contigs = rng.choice([None, ["1", "2", "10", "X"], ["10", "X", "2", "1"]])
+        config = rng.choice(["scheme", "inferred"])
+        n = rng.choice([2, 3, 4, 6])
+        specs = [(rng.choice(["T1", "T2"]), rng.choice(["N1", "N2", None]), rng.choice(["1", "2", "10", "X"]),
+                  rng.choice([5, 9, 10, 100, 1000]), 0) for _ in range(n)]
+        specs = [(t, nn, c, s_, s_ + rng.choice([0, 1, 10])) for (t, nn, c, s_, _d) in specs]
+        cap = rng.choice([1, 2, 3, n + 1])
+        out.evaluations += 1
+        where, fails = eval_maf_reused(order, contigs, config, cap, specs, rng.random() < 0.6)
+        out.failures += fails
+        out.distribution["maf:one record object re-used for several adds"] += 1
+        out.nontrivial.add(repr(("reused", specs, order, contigs, config, cap)))
+
+
 def maf_cases(ctx, out):
     rng = ctx.rng("maf")
     for _ in range(ctx.scale(40, 400)):
@@ -543,6 +595,7 @@ def run(ctx):
         generic_cases(ctx, out, tmp)
         codec_cases(ctx, out, tmp)
         maf_cases(ctx, out)
+        maf_reused_cases(ctx, out)
         maf_route_cases(ctx, out, tmp)
     return out
 
@@ -565,7 +618,19 @@ def specs_of(failure):
     return out
 
 
+def replay_reused(ctx, f):
+    specs = [tuple(sp) for sp in f["specs"]]
+    where, fails = eval_maf_reused(f["order"], f.get("contigs"), f["codec"], f["capacity"], specs, f.get("touch", False))
+    print("replay C07: MafSorter(%s, capacity %d, contigs %s); ONE %s record object added %d times, location / barcodes set in place to %s" % (
+        f["order"], f["capacity"], f.get("contigs"), f["codec"], len(specs), specs))
+    for x in fails:
+        print("  oracle: %s" % x["what"])
+    return fails
+
+
 def replay_case(ctx, failure):
+    if failure.get("kind") == "reused-record" and "specs" in failure:
+        return replay_reused(ctx, failure)
     """Re-evaluate the stored failing input on the current implementation; return the list of failure dicts it
     produces now (empty list = the property holds on that input)."""
     if failure.get("case") == "codec" and failure.get("family") in FAMILIES:
